@@ -4,12 +4,13 @@ import os, importlib.util
 ID = "C11"
 PROPS = "Props/C11.v"
 COQ_TIMEOUT = 5400   # Coq build of this property incl. rebuilt dependencies; generous: on a loaded machine a rebuild after an upstream edit took > 1500 s
-GEN = ["sm4tables", "sm4consts"]
+GEN = ["sm4tables", "sm4consts", "modescode"]
 LEGS = [{"driver": "c11", "runner": ("sm4modes", "Extract/ExtractSM4Modes.v", "Sm4modes_model")}]
 
 TECHNIQUE = ("Coq proof that a function-by-function model of the mode helpers of sm4.go equals SP 800-38A ECB/CBC/CFB-128/OFB over the "
              "PKCS#7-padded message for every key, IV and length, and inverts, for an abstract block cipher (instantiated by the GM/T 0002 "
-             "specification, which C05 proves sm4.go implements); model tied to /repo by differential runs of the extracted model; /repo "
+             "specification, which C05 proves sm4.go implements); model tied to /repo semantically (the mode helpers, xor, pkcs7Padding, pkcs7UnPadding are "
+             "translated statement by statement from the source on every run and proved equal to the model for all inputs) and by differential runs of the extracted model; /repo "
              "additionally checked against crypto/cipher's modes and an independent python implementation")
 LEVEL_TEXT = ("Theorems in Coq (Props/C11.v) over a model of pkcs7Padding, pkcs7UnPadding, SetIV/IV, Sm4Ecb, Sm4Cbc, Sm4CFB, Sm4OFB "
               "(hand-written loops incl. their i==0 branches): for every 16-byte key, 16-byte IV and message of any length the ciphertext is "
@@ -19,15 +20,18 @@ LEVEL_TEXT = ("Theorems in Coq (Props/C11.v) over a model of pkcs7Padding, pkcs7
               "the package IV at call time; other key lengths give an error; any history of SetIV / helper calls returns for each call the standard result on the values at call "
               "time and the IV in force. The model is run (extracted, block cipher = SM4Spec) on all "
               "lengths 0..1024 x 4 modes with canary bytes behind len(in).")
-LEVEL_NOTE = ("Trusted: Coq kernel, extraction (ExtrOcamlBasic only), the hand-written model of the helpers' control flow (tied by the "
-              "differential run), the transcription of SP 800-38A / RFC 5652 in ModesSpec.v (tied to crypto/cipher by the driver's oracle). "
+LEVEL_NOTE = ("Trusted: Coq kernel, extraction (ExtrOcamlBasic only), the translator target modescode and its vocabulary SM4/ModesCodeLib.v (Go statement -> Gallina; "
+              "slices/index reads in range not re-checked, c.Encrypt(dst, src) fills a 16-byte dst, out = make + window copies = slots appended in order, value semantics for slices), "
+              "through which Sm4Ecb/Sm4Cbc/Sm4CFB/Sm4OFB, xor, pkcs7Padding, pkcs7UnPadding of the source are proved equal to the hand-written model for all inputs (SM4/ModesCodeTie.v; OFB relative to 16-byte cipher outputs), "
+              "additionally the differential run, the transcription of SP 800-38A / RFC 5652 in ModesSpec.v (tied to crypto/cipher by the driver's oracle). "
               "The block cipher is abstract in the theorems (16-byte outputs, D after E = id); C05 supplies that for sm4.go. Decryption of inputs "
               "that encryption cannot produce (ragged length, invalid pad) returns an empty result and a nil error - recorded, outside the property. "
               "SetIV stores the caller's slice (aliasing): values, not aliasing, are modelled for the IV.")
 TRUSTED_BASE = [
-    "translator harness/cmd/gen target sm4consts (integer literals of every function of sm4.go / sm4_gcm.go, package-level variables) -> coq/Gen/SM4Consts.v; sm4tables via the SM4 instantiation",
+    "translator harness/cmd/gen target modescode (Sm4Ecb, Sm4Cbc, Sm4CFB, Sm4OFB, xor, pkcs7Padding, pkcs7UnPadding of sm4.go statement by statement -> coq/Gen/ModesCode.v, vocabulary coq/SM4/ModesCodeLib.v; SM4/ModesCodeTie.v proves it equal to the model for all inputs)",
+    "translator harness/cmd/gen target sm4consts (integer literals of SetIV, package-level variables of sm4.go) -> coq/Gen/SM4Consts.v; sm4tables via the SM4 instantiation",
     "specification coq/SM4/ModesSpec.v transcribed by hand from NIST SP 800-38A (ECB, CBC, CFB s=128, OFB) and RFC 5652 6.3",
-    "model coq/SM4/ModesModel.v written by hand from sm4/sm4.go; tied by the correspondence run of this check",
+    "model coq/SM4/ModesModel.v written by hand from sm4/sm4.go; tied by C11_helpers_are_source / C11_leaves_are_source (all inputs, over Gen/ModesCode.v) and by the correspondence run of this check; SetIV / IV / the heap-level models: correspondence run only",
     "block cipher abstract in the theorems (Record block_cipher); instantiated by SM4Spec (C11_sm4_is_block_cipher); C05 ties sm4.go's cipher.Block to SM4Spec",
     "extraction: ExtrOcamlBasic only; OCaml 4.13.1 + dune; runner ocaml/sm4modes/main.ml and ocaml/conv.ml.tmpl",
     "Go driver harness/cmd/c11 (canary placement, crypto/cipher oracle); python SM4 + modes in checks/c05.py / checks/c11.py",
